@@ -20,6 +20,8 @@ def run(ctx):
     for cfg, prog in ctx.programs().items():
         from .. import inbounds
         nh = inbounds.rule_hidden_flag(ctx, cfg, prog)
+        na = inbounds.rule_hidden_all(ctx, cfg, prog)
+        ctx.floor('R-HIDDEN/all delegation component writes in key derivation[%s]' % cfg, na, 4)
         ctx.floor('R-HIDDEN/flag identity uses in key derivation[%s]' % cfg, nh, 4)
         ni = inbounds.rule_inbounds(ctx, cfg, prog, only=['keygen', 'nondelegable_keygen', 'qualifykey', 'nondelegable_qualifykey', 'resamplekey', 'precompute'])
         ctx.floor('R-INBOUNDS cursor-selected accesses[%s]' % cfg, ni, 15)
